@@ -317,6 +317,125 @@ def check_adler_range(rep, mod):
                 key='R-ADLER-RANGE|lo', sample='finalize_adler32: low half in [%d, %d]' % iv if iv else None)
 
 
+def check_csum_guard(rep, mod, flags):
+    """the running checksum must be updated for EVERY wrapper mode that carries (or exposes) a checksum, i.e. for every non-zero value of the
+    flag field: partial evaluation of the control-flow graph per flag value (only branches whose condition is a function of the flag alone are
+    decided) shows that no path from a flag test to its join skips the update."""
+    R = rep.rule('R-CSUM-GUARD', 'every call of update_checksum outside the checksum helpers: for each non-zero wrapper flag value (compression: gzip_flag, decompression: crc_flag), in the control-flow graph '
+                 'with the flag-only branches decided for that value, every path from each flag test that governs the call to the join of that test goes through the call - no wrapper mode with a trailer '
+                 'checksum skips the update; and the call is reachable', floor=7, unit='call sites')
+    offz = c19.field_offsets('struct isal_zstream', ['gzip_flag'])['gzip_flag']
+    offi = c19.field_offsets('struct inflate_state', ['crc_flag'])['crc_flag']
+    vz = {n: flags[n] for n in ('IGZIP_GZIP', 'IGZIP_GZIP_NO_HDR', 'IGZIP_ZLIB', 'IGZIP_ZLIB_NO_HDR')}
+    vi = {n: flags[n] for n in ('ISAL_GZIP', 'ISAL_GZIP_NO_HDR', 'ISAL_ZLIB', 'ISAL_ZLIB_NO_HDR', 'ISAL_ZLIB_NO_HDR_VER', 'ISAL_GZIP_NO_HDR_VER')}
+    for fn, f in sorted(mod.funcs.items()):
+        sites = [i for i in f.all_insns() if i.op == 'call' and base_name(i.callee or '') == 'update_checksum']
+        if not sites:
+            continue
+        pidx = None
+        for n, (ty, name) in enumerate(f.params):
+            if 'struct.isal_zstream*' in ty:
+                pidx, off, vals = n, offz, vz
+            elif 'struct.inflate_state*' in ty:
+                pidx, off, vals = n, offi, vi
+        if pidx is None:
+            raise AnalysisBroken('%s calls update_checksum but has no stream parameter' % fn)
+        P = irrules.prov(mod, f)
+        pd = f.postdominators()
+
+        def ev(c, v, depth=0):
+            """value of an i1/int expression that depends on the flag only, else None"""
+            if re.match(r'^-?\d+$', c):
+                return int(c)
+            if c in ('true', 'false'):
+                return int(c == 'true')
+            d = f.defs.get(irrules._strip(f, c))
+            if d is None or depth > 8:
+                return None
+            if d.op == 'load':
+                return v if P.atoms(d.ops[0]) == {('param', pidx, off)} else None
+            if d.op == 'icmp':
+                a, b = ev(d.ops[0], v, depth + 1), ev(d.ops[1], v, depth + 1)
+                if a is None or b is None:
+                    return None
+                return int({'eq': a == b, 'ne': a != b, 'ugt': a > b, 'uge': a >= b, 'ult': a < b, 'ule': a <= b, 'sgt': a > b, 'sge': a >= b, 'slt': a < b, 'sle': a <= b}[d.extra['pred']])
+            if d.op in ('and', 'or', 'xor'):
+                a, b = ev(d.ops[0], v, depth + 1), ev(d.ops[1], v, depth + 1)
+                if a is None or b is None:
+                    return None
+                return {'and': a & b, 'or': a | b, 'xor': a ^ b}[d.op]
+            return None
+
+        def succ(b, v):
+            t = f.blocks[b].insns[-1]
+            if t.op == 'br':
+                if t.extra.get('cond'):
+                    c = ev(t.extra['cond'], v) if v is not None else None
+                    tt, tf = t.extra['targets']
+                    return [tt, tf] if c is None else [tt if c else tf]
+                return list(t.extra['targets'])
+            if t.op == 'switch':
+                cs = t.extra['cases'].items() if isinstance(t.extra['cases'], dict) else t.extra['cases']
+                c = ev(t.ops[0], v) if v is not None else None
+                if c is not None:
+                    for k, tgt in cs:
+                        if int(k) == c:
+                            return [tgt]
+                    return [t.extra['default']]
+                return list(dict.fromkeys([t.extra['default']] + [x[1] for x in cs]))
+            return []
+
+        def ipdom(b):
+            cands = pd.get(b, set()) - {b}
+            best = None
+            for c in cands:
+                if c != '#exit' and all(o == c or o == '#exit' or o in pd.get(c, set()) for o in cands):
+                    best = c
+            return best
+
+        def reach(start, v, avoid=None, stop=None):
+            seen, work = set(), [start]
+            while work:
+                b = work.pop()
+                if b in seen or b == avoid:
+                    continue
+                seen.add(b)
+                if b == stop:
+                    continue
+                work += succ(b, v)
+            return seen
+        flagtests = []
+        for b in f.order:
+            t = f.blocks[b].insns[-1]
+            if t.op == 'br' and t.extra.get('cond') and all(ev(t.extra['cond'], v) is not None for v in vals.values()):
+                flagtests.append(b)
+        for i in sites:
+            R.instance()
+            C = i.block
+            where = mod.where(f, i)
+            key = 'R-CSUM-GUARD|%s|%s' % (fn, C)
+            bad = None
+            for n, v in sorted(vals.items()):
+                if C not in reach(f.order[0], v):
+                    bad = 'with %s (%d) the call is unreachable' % (n, v)
+                    break
+                for B in flagtests:
+                    J = ipdom(B)
+                    # only tests the call is control-dependent on: it post-dominates one arm of B but not B itself
+                    arms = succ(B, None)
+                    if not f.dominates(B, C) or C in (pd.get(B, set()) - {B}) or not any(S == C or C in pd.get(S, set()) for S in arms):
+                        continue
+                    # in the graph decided for v: can the join (or a return) be reached from B without executing the call?
+                    r = reach(B, v, avoid=C, stop=J)
+                    esc = (J in r) if J is not None else any(f.blocks[x].insns[-1].op == 'ret' for x in r)
+                    if esc:
+                        bad = 'with %s (%d) the path from the flag test in %s to %s skips the call: the checksum of this wrapper mode misses the bytes of this call' % (n, v, B, J or 'the return')
+                        break
+                if bad:
+                    break
+            R.check(bad is None, where, '%s: %s' % (fn, bad), key=key, sample='%s: update for every non-zero flag' % fn)
+
+
 def main(tier):
     rep = Report('C11', tier, level='other')
     rep.undecided = UNDECIDED
@@ -335,6 +454,7 @@ def main(tier):
     check_trailer_write(rep, mod, flags)
     check_adler_range(rep, mod)
     check_csum_range(rep, mod)
+    check_csum_guard(rep, mod, flags)
     check_state_after_compare(rep, mod)
     import c10
     c10.check_stored_bound(rep, mod)
